@@ -465,6 +465,21 @@ fn family_cpio(g: &mut Gen<'_>, rng: &mut Rng, n_random: usize) {
     // unterminated / non-UTF-8 names
     archives.push([mcpio::enc_newc_header(b"070701", hdr13(5, 0), b"abcde"), mcpio::enc_trailer()].concat());
     archives.push([mcpio::enc_newc_header(b"070701", hdr13(4, 0), &[0xff, 0xfe, 0xfd, 0]), vec![0, 0], mcpio::enc_trailer()].concat());
+    // well-formed names in every prefix style (with "./", with "/", bare as in source packages) whose
+    // first bytes are multi-byte characters, so that any fixed byte offset falls inside one of them
+    for stem in ["日本語.patch", "aé.spec", "é", "éé", "a\u{301}b", "🦀.rs", "ü/ö", ".é", "..é", "x\u{7f}\u{80}"] {
+        for prefix in ["", "./", "/", ".", "//", "./."] {
+            let mut name = format!("{prefix}{stem}").into_bytes();
+            name.push(0);
+            let mut a = mcpio::enc_newc_header(b"070701", hdr13(name.len() as u32, 3), &name);
+            while a.len() % 4 != 0 {
+                a.push(0);
+            }
+            a.extend_from_slice(b"abc\0");
+            a.extend(mcpio::enc_trailer());
+            archives.push(a);
+        }
+    }
     // non-hex fields
     let mut a = good(0);
     a[6..14].copy_from_slice(b"zzzzzzzz");
